@@ -60,6 +60,20 @@ def run_case(ck: Check, case: dict):
     if st != "ok":
         ck.violation("C04/bfs-error", "BFS with hashes raised: " + r, {"case": case})
         return
+    if case.get("via_file") and gd.kind == "perm":
+        # the same ball after BfsResult.save / BfsResult.load: still "a BFS result that kept hashes for layers 0..D"
+        import tempfile
+
+        from cayleypy import BfsResult
+
+        with tempfile.TemporaryDirectory(prefix="cvC04") as td:
+            r.save(os.path.join(td, "ball.h5"))
+            st, r2 = algos.call(BfsResult.load, os.path.join(td, "ball.h5"))
+        if st != "ok":
+            ck.violation("C04/load-error", "loading a saved ball raised: " + r2, {"case": case})
+            return
+        r = r2
+        ck.count("ball passed through save/load")
     depth = len(r.layers_hashes) - 1  # layers 0..depth kept
     lines = ctx.layers_line(r.layers_hashes)
     for q in queries:
@@ -128,7 +142,7 @@ def gen_case(ck: Check, cap):
     o = outside_state(rng, gd, orbit)
     if o is not None and rng.random() < 0.6:
         queries.append(o)
-    return {"gd": gd.to_json(), "cfg": graphs.gen_cfg(rng, gd), "D": D, "queries": queries, "store": rng.choice([None, 1, 1000]), "nobatch": rng.random() < 0.3}
+    return {"gd": gd.to_json(), "cfg": graphs.gen_cfg(rng, gd), "D": D, "queries": queries, "store": rng.choice([None, 1, 1000]), "nobatch": rng.random() < 0.3, "via_file": rng.random() < 0.15}
 
 
 def main():
@@ -157,6 +171,19 @@ def main():
         qs = [list(ck.rng.choice(layers[min(len(layers) - 1, big + 1)])) for _ in range(4)] + [list(ck.rng.choice(layers[big])) for _ in range(3)] + [list(ck.rng.choice(layers[-1]))]
         ck.guard(run_case, ck, {"gd": gd.to_json(), "cfg": graphs.gen_cfg(ck.rng, gd), "D": len(layers), "queries": qs, "store": None, "nobatch": False})
         ck.count("duplicate-neighbour-graphs")
+    # balls with a two- or three-digit number of layers, in memory and after a save/load round trip
+    for i in range(6 if not ck.thorough else 60):
+        if ck.enough():
+            break
+        gd = graphs.deep_directed_def(ck.rng) if i % 3 else graphs.many_layer_directed_def(ck.rng, 98, 110)
+        layers = gd.brute_layers(cap=3000)
+        if layers is None or len(layers) < 11:
+            continue
+        qs = [list(ck.rng.choice(layers[j])) for j in (2, 9, 10, len(layers) - 1, ck.rng.randrange(len(layers)), ck.rng.randrange(len(layers)))]
+        cfg = graphs.gen_cfg(ck.rng, gd)
+        cfg["batch_size"] = ck.rng.choice([3, 50, 2**20])
+        ck.guard(run_case, ck, {"gd": gd.to_json(), "cfg": cfg, "D": len(layers), "queries": qs, "store": None, "nobatch": False, "via_file": i % 2 == 0})
+        ck.count("many-layer balls")
     ck.assumptions = ["hash injective on the ball, the query and its inverse-neighbours (H2 events are violations)", "max_diameter >= 1 semantics: D = 0 is passed as max_diameter=0 and yields the one-layer ball"]
     ck.finish(rule="generated definitions with constructible inverse x ball depth D in {0, 1, ecc/2, ecc-1, ecc, ecc+2, random} x queries inside / on the boundary of / outside the ball and outside the orbit; judged by Spec distances (proven reference BFS) and replay of the path with plain integer arithmetic")
 
